@@ -168,6 +168,24 @@ func IteU64(c bool, a, b uint64) uint64 {
 	}
 	return b
 }
+func IteU32(c bool, a, b uint32) uint32 {
+	if c {
+		return a
+	}
+	return b
+}
+func IteI64(c bool, a, b int64) int64 {
+	if c {
+		return a
+	}
+	return b
+}
+func IteInt(c bool, a, b int) int {
+	if c {
+		return a
+	}
+	return b
+}
 func IteBool(c bool, a, b bool) bool {
 	if c {
 		return a
